@@ -788,6 +788,9 @@ Error Message: {}
         instructions = m.get_text()
         m.get_binary()  # lang
         prompts = m.get_int()
+        # each prompt takes at least 5 bytes (string length + echo flag)
+        if prompts * 5 > len(m.get_remainder()):
+            raise SSHException("Invalid info request: too many prompts")
         prompt_list = []
         for i in range(prompts):
             prompt_list.append((m.get_text(), m.get_boolean()))
@@ -806,6 +809,9 @@ Error Message: {}
         if not self.transport.server_mode:
             raise SSHException("Illegal info response from server")
         n = m.get_int()
+        # each response takes at least 4 bytes (its length)
+        if n * 4 > len(m.get_remainder()):
+            raise SSHException("Invalid info response: too many responses")
         responses = []
         for i in range(n):
             responses.append(m.get_text())
